@@ -14,9 +14,9 @@ import (
 // ---------------------------------------------------------------- generator for stream `authn`
 
 var (
-	authnTDs  = []string{"cluster.local", "td@corp.example", "t,d", ""}
-	oidcAuds  = [][]string{{"istio-ca"}, {"a", "b"}, {}}
-	oidcSubs  = []string{"system:serviceaccount:ns1:sa1", "system:serviceaccount:x", "system:serviceaccount", "system:serviceaccount:",
+	authnTDs = []string{"cluster.local", "td@corp.example", "t,d", ""}
+	oidcAuds = [][]string{{"istio-ca"}, {"a", "b"}, {}}
+	oidcSubs = []string{"system:serviceaccount:ns1:sa1", "system:serviceaccount:x", "system:serviceaccount", "system:serviceaccount:",
 		"system:serviceaccount::", "system:serviceaccount:a:b:c", "system:serviceaccountfoo:a:b", "system:serviceaccount:a,evil.example.com:b",
 		"system:serviceaccount:a/sa/admin:b", "bar:foo", "", "system:serviceaccount:a:", "SYSTEM:serviceaccount:a:b", "system:serviceaccounts:a:b",
 		"system:serviceaccountx", "system:serviceaccount:::", "system:serviceaccount:kube-system:default"}
@@ -241,7 +241,7 @@ var (
 	// entries with two certificates or none; RX is a CA that is a root of no trust domain)
 	tlsBundles = []string{"@x:R1", "@x:R1;j:RX", "@j:RX;x:R1", "@x:R1;x:R2", "@j:RX", "@x:R1+RX", "@x:R1;x:", "@x:R1;j:", "@x:R1;j:R2+RX", "@n:RX;x:R1", "@x:RX",
 		"@", "@j:R1", "@x:R1;j:RX;j:R3", "@n:R1", "@x:;j:RX", "@x:R2;j:R1"}
-	tlsURIs  = []string{"spiffe://td1/ns/a/sa/b", "spiffe://td2/ns/a/sa/b", "spiffe://td1/ns/istio-system/sa/ztunnel", "spiffe://cluster.local/ns/a/sa/b",
+	tlsURIs = []string{"spiffe://td1/ns/a/sa/b", "spiffe://td2/ns/a/sa/b", "spiffe://td1/ns/istio-system/sa/ztunnel", "spiffe://cluster.local/ns/a/sa/b",
 		"spiffe://td3/ns/a/sa/b", "spiffe://td1/x", "spiffe://td1/ns/a/sa/b/c", "https://td1/ns/a/sa/b", "spiffe://td1,td2/ns/a/sa/b",
 		"SPIFFE://td1/ns/a/sa/b", "Spiffe://td2/ns/a/sa/b", "sPiFfE://td1/ns/istio-system/sa/ztunnel", "SPIFFE://td3/ns/a/sa/b", "SPIFFE://td1/x"}
 )
@@ -338,7 +338,6 @@ func genTLSCert(r *wire.Rng, tr string) []string {
 	}
 	return []string{"tlscert", tr, wire.EncList(pools), l.tok(), wire.EncList(ints)}
 }
-
 
 func genAuthn(seed uint64, n int, outp string) {
 	out := wire.Create(outp)
